@@ -6,7 +6,10 @@ and the real sshuttle.cmdline.main (SSHUTTLE_ARGS merging) are run on generated
 texts; the extracted Coq model (coq/Model/Args.v) is run on the same texts.
 Boundary: socket.getaddrinfo as seen by sshuttle.options — numeric literals go to
 the real libc (AI_NUMERICHOST, no network), names go to the fixed table NAMES,
-which is handed to the model unchanged.  Independent oracle: ipaddress."""
+which is handed to the model unchanged.  Independent oracle: ipaddress.
+Listen clause (implementation only): port-less host texts through parse_ipport
+(host vs host:0) and `--listen` values through the real cmdline.main with
+sshuttle.client.main replaced by a recorder."""
 import io
 import ipaddress
 import os
@@ -19,6 +22,8 @@ RULE = ("texts x parsers: every generated text is given to parse_subnetport, par
         "IPv4 spellings (1-4 parts, decimal/hex/octal, boundary values), IPv6 spellings (every compression, leading zeros, upper case, "
         "embedded IPv4), widths -1..33/127..129, ports and ranges, bracket combinations, names from the table, single-edit mutants, "
         "printable garbage, non-ASCII digits/letters (real code only); argv = SSHUTTLE_ARGS ++ command line over all store-type options; "
+        "listen texts = every generated IPv4 spelling / bracketed IPv6 spelling / table name without a port part (host vs host:0) and "
+        "--listen values of one entry or one per family, with and without ports, through the real cmdline.main up to client.main (real code only); "
         "a case is non-trivial when at least one of the three readers accepts it or it is a mutant of an accepted text; distinct by content hash")
 TRUSTED_BASE = [
     "modelled, not verified: CPython re (the five regular expressions are re-implemented as structural recognisers), int() incl. the 4300-digit limit, "
@@ -730,6 +735,184 @@ def correspondence_argv(ctx, w):
 
 
 # ---------------------------------------------------------------------------
+# listen specifications (implementation-only oracle; the spec side is ipaddress / the table NAMES)
+
+def listen_expected(host, exp):
+    """(family, canonical address) a port-less listen text denotes, from the generator's own knowledge of the
+    address (exp), ipaddress, or the table NAMES; None when the text denotes no host"""
+    if exp is not None and exp.get("fam") == 2 and "value" in exp:
+        return 2, str(ipaddress.IPv4Address(exp["value"]))
+    if exp is not None and exp.get("fam") == 10 and "words" in exp:
+        return 10, socket.inet_ntop(socket.AF_INET6, v6_pack(exp["words"]))
+    bare = host[1:-1] if host.startswith("[") and host.endswith("]") else host
+    if bare in NAMES:
+        return min(NAMES[bare])
+    try:
+        ip = ipaddress.ip_address(bare)
+    except ValueError:
+        return None
+    if ip.version == 4:
+        return 2, str(ip)
+    return 10, socket.inet_ntop(socket.AF_INET6, ip.packed)
+
+
+def listen_hosts(ctx, uniq):
+    """-> [(host text without a port part, expectation or None)] : every IPv4 spelling, every IPv6 spelling in
+    brackets (and bare: never accepted, with or without ':0'), names, the hosts of the ipport forms"""
+    out, seen = [], set()
+
+    def add(h, exp, kind):
+        if h in seen or not h.isascii():
+            return
+        seen.add(h)
+        out.append((h, exp))
+        ctx.count("listen_host_" + kind)
+    for s, kind, exp in uniq:
+        if kind == "v4_plain":
+            add(s, exp, "v4")
+        elif kind in ("v6_plain", "v6_embedded", "v6_canon", "v6_canon_embedded") and exp is not None and exp.get("width") == 128 \
+                and exp.get("fp") == 0 and "/" not in s and "[" not in s:
+            add("[" + s + "]", exp, "v6_bracketed")
+            if len(out) % 5 == 0:
+                add(s, None, "v6_bare")
+    for h in ["127.0.0.1", "0.0.0.0", "localhost", "router", "10.0", "0x7f.1", "127.1", "[::1]", "[::]", "[1:2::3]", "[1.2.3.4]",
+              "[2001:db8::ffff:1.2.3.4]", "[example.com]", "[multi4.test]", "multi4.test", "multi6.test", "my.local", "v6only.test",
+              "v4only.test", "example.com", "under_score-1.lan", "unknown.test", "::1", "1::2", "[::1", "::1]", "a b", "-", "_"]:
+        add(h, None, "fixed")
+    return out
+
+
+def check_listen_text(ctx, w, h, exp):
+    """a listen entry with a host and no port part denotes port 0 ("pick a free port"): parse_ipport(h) must be
+    what parse_ipport(h + ':0') is, and — when the host is one the spec side knows — exactly (family, address, 0)"""
+    g0, r0, e0 = impl_ipp(w, h)
+    g1, r1, e1 = impl_ipp(w, h + ":0")
+    want = listen_expected(h, exp)
+    ctx.case(("listen_text", h), nontrivial=r0.startswith("OK") or r1.startswith("OK"))
+    ctx.count("listen_text_" + r0.split(" ")[0])
+    if h.isdigit() or h == "":
+        return            # "just 567": the text is a port, not a host
+    if r0 != r1:
+        ctx.violation("a listen specification without a port does not decompose into the host and port 0 its text denotes "
+                      "(parse_ipport(host) differs from parse_ipport(host:0))",
+                      {"fn": "listen_text", "text": h, "got": r0, "with_port_0": r1})
+        return
+    if want is not None and r0.startswith("OK") and r0 != "OK %d %s 0" % (want[0], hx(want[1])):
+        ctx.violation("a listen specification does not decompose into the host and port its text denotes",
+                      {"fn": "listen_text", "text": h, "got": r0, "expected": "OK %d %s 0" % (want[0], hx(want[1]))})
+
+
+def impl_main_listen(w, env, argv):
+    """real cmdline.main with client.main replaced by a recorder -> ('OK', v6, v4) | (outcome string, None, None)"""
+    import shlex
+    import sshuttle.cmdline as cmdline
+    got = {}
+
+    def rec(listenip_v6, listenip_v4, *rest):
+        got["v6"], got["v4"] = listenip_v6, listenip_v4
+        return 0
+    saved = (cmdline.client.main, sys.argv, cmdline.log, os.environ.get("SSHUTTLE_ARGS"))
+    cmdline.client.main = rec
+    cmdline.log = lambda s: None
+    sys.argv = ["sshuttle"] + list(argv)
+    if env is None:
+        os.environ.pop("SSHUTTLE_ARGS", None)
+    else:
+        os.environ["SSHUTTLE_ARGS"] = shlex.join(env)
+    try:
+        try:
+            rv = quiet(cmdline.main)
+        except SystemExit as e:
+            return "USAGE %s" % (e.code,), None, None
+        except BaseException as e:       # noqa: B902
+            return "CRASH " + type(e).__name__, None, None
+        if "v4" not in got:
+            return "RETURNED %r" % (rv,), None, None
+        return "OK", got["v6"], got["v4"]
+    finally:
+        cmdline.client.main, sys.argv, cmdline.log = saved[:3]
+        if saved[3] is None:
+            os.environ.pop("SSHUTTLE_ARGS", None)
+        else:
+            os.environ["SSHUTTLE_ARGS"] = saved[3]
+
+
+def pair_str(p):
+    return None if p is None else [p[0], p[1]] if isinstance(p, tuple) else p
+
+
+def run_listen_case(w, entries, form):
+    """entries = [(host, port text or None)] ; -> (outcome, v6, v4, argv, env)"""
+    val = ",".join(h + (":" + p if p is not None else "") for h, p in entries)
+    rest = ["-r", "-", "10.0.0.0/8"]
+    env = None
+    if form == "long":
+        argv = ["--listen", val] + rest
+    elif form == "eq":
+        argv = ["--listen=" + val] + rest
+    elif form == "short":
+        argv = ["-l", val] + rest
+    elif form == "glued":
+        argv = ["-l" + val] + rest
+    else:
+        env, argv = ["--listen", val], rest
+    o, v6, v4 = impl_main_listen(w, env, argv)
+    return o, v6, v4, argv, env
+
+
+def check_listen_main(ctx, w, hosts):
+    """`--listen host[,host]` through the real cmdline.main: what reaches client.main is, per family, the address
+    the text denotes and the port it gives — 0 when it gives none"""
+    rng = ctx.rng
+    known = []
+    for h, exp in hosts:
+        want = listen_expected(h, exp)
+        if want is not None and not h.isdigit() and "," not in h and not h.startswith("-") and (h.startswith("[") or ":" not in h):
+            known.append((h, want))
+    v4s = [x for x in known if x[1][0] == 2]
+    v6s = [x for x in known if x[1][0] == 10]
+    fixed4 = [x for x in v4s if x[0] in ("127.0.0.1", "0.0.0.0", "localhost", "127.1", "router", "my.local")]
+    fixed6 = [x for x in v6s if x[0] in ("[::1]", "[::]", "[1:2::3]", "v6only.test")]
+    n = 120 if ctx.quick() else 1500
+    cases = []
+    for a in fixed4 + fixed6:
+        cases.append([(a, None)])
+    for a in fixed4[:3]:
+        for b in fixed6[:3]:
+            for pa, pb in ((None, None), ("0", None), (None, "4000"), ("12300", None)):
+                cases.append([(a, pa), (b, pb)])
+                cases.append([(b, pb), (a, pa)])
+    for _ in range(n):
+        k = rng.random()
+        ports = [None, None, None, "0", "12300", "4000", "65535", "53"]
+        if k < 0.35 and v4s:
+            cases.append([(rng.choice(v4s), rng.choice(ports))])
+        elif k < 0.6 and v6s:
+            cases.append([(rng.choice(v6s), rng.choice(ports))])
+        elif v4s and v6s:
+            c = [(rng.choice(v4s), rng.choice(ports)), (rng.choice(v6s), rng.choice(ports))]
+            rng.shuffle(c)
+            cases.append(c)
+    for i, c in enumerate(cases):
+        form = ("long", "eq", "short", "glued", "env")[i % 5]
+        entries = [(h, p) for (h, _), p in c]
+        want6 = want4 = None
+        for (h, (fam, addr)), p in c:
+            if fam == 10:
+                want6 = (addr, int(p) if p is not None else 0)
+            else:
+                want4 = (addr, int(p) if p is not None else 0)
+        o, v6, v4, argv, env = run_listen_case(w, entries, form)
+        portless = any(p is None for _, p in c)
+        ctx.case(("listen_main", tuple(entries), form), nontrivial=True,
+                 sample={"kind": "listen", "argv": argv, "env": env, "client_main_v6": pair_str(v6), "client_main_v4": pair_str(v4)}
+                 if i % 40 == 0 else None)
+        ctx.count("listen_main_%s_%s" % (form, "portless" if portless else "explicit"))
+        if o != "OK" or v6 != want6 or v4 != want4:
+            ctx.violation("--listen does not hand client.main the host and port its text denotes (no port = 0, pick a free port)",
+                          {"fn": "main_listen", "entries": [[h, p] for h, p in entries], "form": form,
+                           "got": [o, pair_str(v6), pair_str(v4)], "expected": ["OK", pair_str(want6), pair_str(want4)]})
+
 
 def correspondence(ctx):
     w = World()
@@ -893,6 +1076,18 @@ def correspondence(ctx):
                      "--listen is parsed in cmdline.main, where an ArgumentTypeError from parse_ipport is not caught (traceback instead of usage error); "
                      "argparse itself swallows the option value '--' (`--to-ns=--` gives an empty list without calling parse_ipport)")
     correspondence_argv(ctx, w)
+
+    # --- listen specifications without a port part (implementation-only: the model has no cmdline.main -> client.main step)
+    hosts = listen_hosts(ctx, uniq)
+    for h, exp in hosts:
+        check_listen_text(ctx, w, h, exp)
+    check_listen_main(ctx, w, hosts)
+    ctx.notes.append("listen clause, implementation-only oracle: for every generated host text without a port part (IPv4 spellings, "
+                     "bracketed IPv6 spellings, names of the table; bare IPv6 is accepted neither with nor without ':0') "
+                     "parse_ipport(host) == parse_ipport(host + ':0') == (family, canonical address, 0), and `--listen` values "
+                     "(one entry or one per family, with and without ports; --listen/-l/=/glued/SSHUTTLE_ARGS) reach client.main through "
+                     "the real cmdline.main as exactly (address, port) per family, port 0 when the text gives none; --to-ns is not "
+                     "constrained here (a missing port there means the resolver's default port, chosen by the server)")
     ctx.programs = ctx.evaluations
 
 
@@ -923,6 +1118,16 @@ def replay(ctx, rp):
         o = impl_argparse(w, ["--", s])[0]
         print("parse_args(['--', %r]) -> %s" % (s, o))
         return o not in ("OK", "USAGE")
+    if fn == "listen_text":
+        g0, r0, e0 = impl_ipp(w, s)
+        g1, r1, e1 = impl_ipp(w, s + ":0")
+        print("parse_ipport(%r) -> %s ; parse_ipport(%r) -> %s ; expected %s" % (s, r0, s + ":0", r1, r.get("expected", "the same")))
+        return r0 != r1 or ("expected" in r and r0 != r["expected"])
+    if fn == "main_listen":
+        o, v6, v4, argv, env = run_listen_case(w, [(h, p) for h, p in r["entries"]], r.get("form", "long"))
+        got = [o, pair_str(v6), pair_str(v4)]
+        print("SSHUTTLE_ARGS=%r argv=%r -> client.main(v6, v4) = %r ; expected %r" % (env, argv, got, r.get("expected")))
+        return got != r.get("expected")
     if fn == "main":
         args, (cls, ns) = impl_main_args(w, r.get("env"), list(r.get("argv", [])) + ["10.0.0.0/8"])
         got = repr(getattr(ns, r["dest"])) if ns is not None and "dest" in r else None
